@@ -21,7 +21,8 @@ GenNext ==
                                   /\ hist' = Append(hist, [a |-> a, exp |-> out']) /\ UNCHANGED fin
   \/ /\ ~fin /\ (ended \/ Len(hist) >= Depth - 3)
      \* a normal end commits; if that COMMIT fails the run has ended by an error after all
-     /\ \E how \in (IF ended THEN {"error"} ELSE IF Unencodable # {} THEN {"commitfail", "exit"} ELSE {"normal", "exit"}) :
+     \* ("exit" = EXIT 3, "exit0" = EXIT without a code: the procedure ends without commit whatever the code)
+     /\ \E how \in (IF ended THEN {"error"} ELSE IF Unencodable # {} THEN {"commitfail", "exit", "exit0"} ELSE {"normal", "exit", "exit0"}) :
           hist' = Append(hist, [a |-> [act |-> "end", t |-> how, k |-> 0, x |-> 0],
                                 exp |-> [k |-> "end", e |-> how, vals |-> <<>>],
                                 final |-> [f \in AllFiles |-> Show(FinalDisk(how = "normal")[f])]])
